@@ -97,6 +97,9 @@ type Path struct {
 	guard      *Term // extra guard active during merged (speculative) evaluation; nil otherwise
 	noFork     bool  // set during speculative merge evaluation
 	concArr    map[int]*Term
+	isTemplate   bool
+	cloneMemo    map[*Object]*Object
+	cloneMaps    map[*MapObj]*MapObj
 	bounds       map[*Term]ival
 	noIntervals  bool
 	impliedMemo  map[[2]int]int
